@@ -10,11 +10,12 @@ SD = os.path.join(vlib.SPECS, "http")
 def build(c):
     srcs = [os.path.join(vlib.HARNESS, f) for f in ("drv_http.c", "allocwrap.c")] + vlib.repo_srcs(
         *(c06.EV_SRCS + ["network/network_read.c", "network/network_write.c", "network/network_connect.c",
-                         "netbuf/netbuf_read.c", "netbuf/netbuf_write.c", "http/http.c",
+                         "netbuf/netbuf_read.c", "netbuf/netbuf_write.c", "http/http.c", "http/https.c", "netbuf/netbuf_ssl.c",
+                         "network_ssl/network_ssl.c", "network_ssl/network_ssl_compat.c",
                          "util/sock.c", "util/sock_util.c", "util/asprintf.c", "alg/sha256.c", "alg/sha256_shani.c", "alg/sha256_sse2.c",
                          "util/insecure_memzero.c", "cpusupport/cpusupport_x86_shani.c", "cpusupport/cpusupport_x86_sse2.c",
                          "cpusupport/cpusupport_x86_ssse3.c"]))
-    return vlib.build(c.dir, "drv_http", srcs, wraps=c06.WRAPS)
+    return vlib.build(c.dir, "drv_http", srcs, wraps=c06.WRAPS, libs=["-lssl", "-lcrypto"])
 
 
 def hx(b):
